@@ -717,6 +717,29 @@ class WitnessModel(Model):
         r.members['dims'] = []
         return r
 
+    def _convert(self, interp, v, unit, dtype, copy, node, what):
+        r = super()._convert(interp, v, unit, dtype, copy, node, what)
+        # scipp converts an integer variable to another unit in integer arithmetic: the new magnitude is rounded to an integer.
+        # At a witness the rounded number is known (2 Hz/s is 0 Hz/ms).
+        from .scipp_model import INTS
+        if isinstance(r, SVar) and isinstance(v, SVar) and v.dtype in INTS and r.dtype in INTS and isinstance(v.unit, Unit) and isinstance(r.unit, Unit) \
+                and v.unit != r.unit and not v.unit.param_syms() and not r.unit.param_syms() and items_of(v) is None and isinstance(v.term, Rat):
+            si = self.value(v)
+            try:
+                scale = T.evaluate(r.unit.scale(), self.val, self.fns)
+            except T.EvalError:
+                scale = None
+            if si is not None and scale:
+                mag = F(si) / F(scale)
+                rounded = F(round(mag))
+                if rounded != mag:
+                    r.term = Rat.const(rounded) * r.unit.scale()
+                    r.why = ''
+                    r.members['concrete'] = int(rounded) if 'concrete' in v.members else r.members.get('concrete')
+                    if r.members.get('concrete') is None:
+                        r.members.pop('concrete', None)
+        return r
+
     def sc_array(self, interp, args, kwargs, node):
         vals = kwargs.get('values')
         if type(vals).__module__ == 'numpy' and getattr(vals, 'ndim', None) == 1 and vals.dtype.kind in 'biuf':
